@@ -156,12 +156,13 @@ MouseStep(e) ==
 ---------------------------------------------------------------------------
 (* C11 *)
 
+FocusDir(e) == IF "fin" \in DOMAIN e THEN e.fin ELSE 1
 TextExpected(c, e) ==
     (IF e.paste THEN <<<<"paste", 1>>>> ELSE <<>>)
     \o [i \in 1..Len(e.src) |-> <<"key", c.kRune, e.src[i], 0>>]
     \o (IF e.paste THEN <<<<"paste", 0>>>> ELSE <<>>)
-    \o (IF e.focus THEN <<<<"focus", 1>>>> ELSE <<>>)
-    \o (IF "focus2" \in DOMAIN e /\ e.focus2 THEN <<<<"focus", 1>>>> ELSE <<>>)     \* every report is an event
+    \o (IF e.focus THEN <<<<"focus", FocusDir(e)>>>> ELSE <<>>)
+    \o (IF "focus2" \in DOMAIN e /\ e.focus2 THEN <<<<"focus", FocusDir(e)>>>> ELSE <<>>)     \* every report is an event
 
 \* the character set of a POSIX locale setting: LC_ALL, else LC_CTYPE, else LANG; "C" and "POSIX" are US-ASCII; otherwise
 \* the codeset between '.' and an optional '@modifier', UTF-8 when the locale names none (strings as byte sequences)
